@@ -467,6 +467,21 @@ Utf8Samples == { << <<195, 1>>, <<169, 1>> >>,
                  << <<226, 1>>, <<130, 1>>, <<172, 1>>, <<97, 9>> >>,
                  << <<240, 1>>, <<159, 1>>, <<152, 1>>, <<128, 1>>, <<122, 3>> >> }
 
+(* unusual CONTENT (not length): the code points on both sides of every UTF-8 length class and of the
+   surrogate gap, U+0000 (the library accepts it on both sides), controls, BOM, the last code point *)
+Unusual == { << <<97, 1>>, <<0, 1>>, <<98, 1>> >>,                         \* a U+0000 b
+             << <<1, 1>> >>,                                                \* U+0001
+             << <<127, 1>>, <<97, 1>> >>,                                   \* U+007F a
+             << <<194, 1>>, <<128, 1>> >>,                                  \* U+0080
+             << <<223, 1>>, <<191, 1>> >>,                                  \* U+07FF
+             << <<224, 1>>, <<160, 1>>, <<128, 1>> >>,                      \* U+0800
+             << <<237, 1>>, <<159, 1>>, <<191, 1>> >>,                      \* U+D7FF
+             << <<238, 1>>, <<128, 2>> >>,                                  \* U+E000
+             << <<239, 1>>, <<187, 1>>, <<191, 1>> >>,                      \* U+FEFF
+             << <<239, 1>>, <<191, 2>> >>,                                  \* U+FFFF
+             << <<240, 1>>, <<144, 1>>, <<128, 2>> >>,                      \* U+10000
+             << <<244, 1>>, <<143, 1>>, <<191, 2>> >> }                     \* U+10FFFF
+
 (* values of one property kind *)
 PropVals(id, L) ==
   CASE id \in {1, 23, 25, 36, 37, 40, 41, 42} -> { MkProp(id, N(x), << >>, << >>) : x \in {0, 1} }
@@ -479,10 +494,12 @@ PropVals(id, L) ==
     [] id = 11             -> { MkProp(id, u, << >>, << >>) :
                                   u \in {U32(0, 1), U32(0, 127), U32(0, 128), U32(0, 16383), U32(0, 16384),
                                          U32(31, 65535), U32(32, 0), U32(4095, 65535)} }
-    [] id \in {3, 8, 18, 21, 26, 28, 31} -> { MkProp(id, N(0), s, << >>) : s \in Strs(65 + (id % 26), L) }
+    [] id \in {3, 8, 18, 21, 26, 28, 31} -> { MkProp(id, N(0), s, << >>) : s \in Strs(65 + (id % 26), L) \cup Unusual }
     [] id \in {9, 22}      -> { MkProp(id, N(0), s, << >>) : s \in Strs(id, L) }
     [] id = 38             -> { MkProp(id, N(0), St(107, m[1]), St(118, m[2])) :
                                   m \in { <<a, a>> : a \in L } \cup { <<0, 1>>, <<1, 0>>, <<65535, 1>>, <<10, 11>> } }
+                              \cup { MkProp(id, N(0), u, St(118, 2)) : u \in Unusual }
+                              \cup { MkProp(id, N(0), St(107, 2), u) : u \in Unusual }
     [] OTHER -> {}
 
 OneVal(id) ==                     \* one ordinary value of each kind
@@ -520,7 +537,7 @@ DefWill == WillRec(0, FALSE, St(119, 2), St(109, 3), << >>)
 Wills(v, L) ==
   { << >>, << DefWill >> }
   \cup { << [DefWill EXCEPT !.qos = q, !.retain = r] >> : q \in 0..2, r \in BOOLEAN }
-  \cup { << [DefWill EXCEPT !.topic = s] >> : s \in Strs(119, L) }
+  \cup { << [DefWill EXCEPT !.topic = s] >> : s \in Strs(119, L) \cup Unusual }
   \cup { << [DefWill EXCEPT !.payload = s] >> : s \in Strs(109, L) }
   \cup (IF v = "v50" THEN { << [DefWill EXCEPT !.props = ps] >> : ps \in PropLists("will", LenSmall) } ELSE {})
 WillsSmall(v) ==
@@ -528,13 +545,14 @@ WillsSmall(v) ==
   \cup (IF v = "v50" THEN { << [DefWill EXCEPT !.props = AllAllowed("will")] >> } ELSE {})
 
 OptStrs(ch, L) == { << >> } \cup { << s >> : s \in Strs(ch, L) }
+OptTexts(ch, L) == OptStrs(ch, L) \cup { << s >> : s \in Unusual }
 
 EntryRec(f, q, n, r, h) == [filter |-> f, qos |-> q, nl |-> n, rap |-> r, rh |-> h]
 DefEntry == EntryRec(St(102, 3), 0, FALSE, FALSE, 0)
 Share(bs, ch, n) == Runs(SharePrefix \o bs) \o St(ch, n)
 EntryLists(v, L) ==
   { << DefEntry >> }
-  \cup { << [DefEntry EXCEPT !.filter = s] >> : s \in Strs(102, L) \ {<< >>} }
+  \cup { << [DefEntry EXCEPT !.filter = s] >> : s \in (Strs(102, L) \ {<< >>}) \cup Unusual }
   \cup { << [DefEntry EXCEPT !.qos = q] >> : q \in 0..2 }
   \cup { << DefEntry, [DefEntry EXCEPT !.qos = 1, !.filter = St(35, 1)], [DefEntry EXCEPT !.qos = 2, !.filter = St(43, 1)] >> }
   \cup { << [DefEntry EXCEPT !.filter = << >>] >> }
@@ -546,7 +564,7 @@ EntryLists(v, L) ==
         ELSE {})
 FilterLists(v, L) ==
   { << St(102, 3) >>, << St(102, 3), St(103, 1), << >> >>, << << >> >> }
-  \cup { << s >> : s \in Strs(102, L) }
+  \cup { << s >> : s \in Strs(102, L) \cup Unusual }
   \cup (IF v = "v50" THEN { << Share(<< 103, 47 >>, 116, 4) >> } ELSE {})
 CodeLists(S) ==
   { << c >> : c \in S } \cup { SetToSortedSeq(S) } \cup { [ i \in 1..n |-> 0 ] : n \in {127, 128} }
@@ -584,14 +602,14 @@ Alt(k, v, w, lvl) ==
   IN
   CASE k = "connect" ->
          [clean |-> {FALSE}, ka |-> IF full THEN {0, 1, 255, 256, 65535} ELSE {0, 65535},
-          cid |-> Strs(99, L) \cup (IF full THEN Utf8Samples ELSE {}),
+          cid |-> Strs(99, L) \cup (IF full THEN Utf8Samples \cup Unusual ELSE {}),
           will |-> IF full THEN Wills(v, L) ELSE IF med THEN Wills(v, {0, 65535}) ELSE WillsSmall(v),
-          user |-> OptStrs(117, L), pass |-> OptStrs(112, L), props |-> PL("connect")]
+          user |-> IF full THEN OptTexts(117, L) ELSE OptStrs(117, L), pass |-> OptStrs(112, L), props |-> PL("connect")]
     [] k = "connack" ->
          [sp |-> {TRUE}, rc |-> RC(RcTable("connack", v) \ {0}, {5, 135}), props |-> PL("connack")]
     [] k = "publish" ->
          [qos |-> {0, 2}, dup |-> {TRUE}, retain |-> {TRUE}, pid |-> { << x >> : x \in PS },
-          topic |-> Strs(116, L \ {0}) \cup (IF full THEN Utf8Samples ELSE {}),
+          topic |-> Strs(116, L \ {0}) \cup (IF full THEN Utf8Samples \cup Unusual ELSE {}),
           payload |-> Strs(120, IF full THEN PayFull ELSE IF med THEN PayMed ELSE PaySmall),
           props |-> PL("publish")]
     [] k \in AckKinds ->
@@ -845,7 +863,8 @@ Mutants(p) ==
   \cup { Mut(p, FlagNibble(p), FlatBody(p), "seed", FALSE) }
 
 (* small valid packets of every kind used as seeds *)
-SeedProps(loc) == { << >>, << OneVal(38) >>, AllAllowed(loc) }
+(* ... one of them with a property section of 128 bytes (a two-byte Property Length) *)
+SeedProps(loc) == { << >>, << OneVal(38) >>, AllAllowed(loc), << MkProp(38, N(0), St(107, 60), St(118, 63)) >> }
 Seeds(g) ==
   LET d == Def(g.k, g.v, g.w)
       v5 == g.v = "v50"
